@@ -56,6 +56,12 @@ def check_case(rep, case, name):
                 q2 = sum(i * (i - 1) * c * x ** (i - 2) for i, c in enumerate(co[:6]) if i >= 2)
                 return [math.exp(q) + co[6], q1 * math.exp(q), (q2 + q1 * q1) * math.exp(q)][n]
             if not check_join(rep, name, case, s1, fA, fB, d, a, inside_exact=inside_exact): return
+            # the derivatives OFFERED inside the splined region are those of exp(quintic) + C (they are what an enclosing spline joins to)
+            for x in (d + 0.3 * (a - d), d + 0.7 * (a - d)):
+                for n_, meth in ((1, 'deriv'), (2, 'deriv2')):
+                    if hasattr(s1, meth):
+                        got, want = getattr(s1, meth)(x), inside_exact(x, n_)
+                        if not close(got, want, 1e-5, 1e-6 * max(1.0, abs(want))): rep.dev(name, case, '.%s(%r) inside the splined region = %r' % (meth, x, got), 'derivative of exp(quintic)+C: %r' % want); return
             # shape: exp(quintic) + C between the joins
             for x in (d + 0.25 * (a - d), d + 0.6 * (a - d)):
                 want = math.exp(sum(c * x ** i for i, c in enumerate(co[:6]))) + co[6]
@@ -65,6 +71,25 @@ def check_case(rep, case, name):
             s2 = from_config(defn)
             for x in (0.5 * d, d, d + 0.3 * (a - d), (d + a) / 2, a, a + 0.5):
                 if not close(s1(x), s2(x), 1e-9, 1e-11): rep.dev(name, case, 'spline() modifier at %r: %r' % (x, s2(x)), 'SplinePotential: %r' % s1(x)); return
+            rep.ok(6)
+        elif k == 'nested':
+            A, rho, C, d1, m1, a1 = case['params']; d, a = case['d'], case['a']
+            inner = pf.buck4(A, rho, C, d1, m1, a1); outer_end = pf.zero()
+            s1 = SplinePotential(inner, outer_end, d, a)
+            s2 = from_config('spline(as.buck4 %r %r %r %r %r %r >=%r exp_spline >=%r as.zero)' % (A, rho, C, d1, m1, a1, d, a))
+            for sp_, label in ((s1, 'SplinePotential'), (s2, 'spline() modifier')):
+                # continuity of value, slope and curvature at the outer detach point, from VALUES of the potential only
+                h = 1e-3
+                def one(side, n):
+                    v = [sp_(d + side * k_ * h) for k_ in range(5)]
+                    if n == 0: return v[0]
+                    if n == 1: return side * (-25 * v[0] + 48 * v[1] - 36 * v[2] + 16 * v[3] - 3 * v[4]) / (12 * h)
+                    return (35 * v[0] - 104 * v[1] + 114 * v[2] - 56 * v[3] + 11 * v[4]) / (12 * h * h)
+                for n_ in (0, 1, 2):
+                    l_, r_ = one(-1, n_), one(+1, n_)
+                    tol = [1e-7, 5e-4, 3e-2][n_]
+                    if not close(l_, r_, tol, tol * max(1.0, abs(r_))):
+                        rep.dev(name, case, '%s: derivative order %d jumps at the outer detach point %r: %r below, %r above' % (label, n_, d, l_, r_), 'continuous (the inner splined potential\'s own derivatives are joined to)'); return
             rep.ok(6)
         else:
             A, rho, C, d, m, a = case['params']
@@ -93,9 +118,13 @@ def gen_case(rng):
                 ('leaf', 'morse', [round(rng.uniform(0.8, 2), 2), round(rng.uniform(1.5, 2.5), 2), round(rng.uniform(0.2, 3), 2)]),
                 ('leaf', 'polynomial', [round(rng.uniform(-2, 2), 2), round(rng.uniform(-1, 1), 2), round(rng.uniform(-0.3, 0.3), 2)])]
         return dict(kind='exp', A=rng.choice(starts), B=rng.choice(ends), d=d, a=a)
+    if rng.random() < 0.25:
+        # a splined potential as the start potential of another spline, the outer detach point inside the inner splined region
+        return dict(kind='nested', params=[round(rng.uniform(800, 3000), 1), round(rng.uniform(0.25, 0.35), 3), round(rng.uniform(10, 60), 1), 1.2, 2.1, 2.6],
+                    d=rng.choice([2.2, 2.3, 2.45]), a=rng.choice([3.2, 3.5]))
     d = rng.choice([1, 1.2, round(rng.uniform(0.9, 1.6), 2)]); m = rng.choice([2, 2.1, round(d + rng.uniform(0.5, 1.0), 2)]); a = rng.choice([3, 2.6, round(m + rng.uniform(0.4, 1.0), 2)])
     if not d < m < a: d, m, a = 1.2, 2.1, 2.6
-    return dict(kind='buck4', params=[round(rng.uniform(500, 12000), 1), round(rng.uniform(0.2, 0.4), 3), round(rng.uniform(5, 120), 1), d, m, a])
+    return dict(kind='buck4', params=[round(rng.uniform(500, 12000), 1), round(rng.uniform(0.2, 0.4), 3), rng.choice([0.0, round(rng.uniform(5, 120), 1), round(rng.uniform(5, 120), 1)]), d, m, a])
 
 if __name__ == '__main__':
     pl = payload(); rep = Report('C10')
